@@ -436,12 +436,77 @@ def check_custom_annotation(case: t.Any, ctx: Ctx) -> None:
         ctx.fail('predicate-exact', f"around-custom-annotation:{type(r).__name__}", f"{ident}: expected ConvertError, got {type(r).__name__}: {str(r)[:200]}")
 
 
+# ---- predicates whose answer is not a bool ------------------------------------------------------------------------------------------
+#
+# "behave as the corresponding Boolean ... predicates": an answer counts by its truth, like anywhere in Python.  An answer whose
+# truth cannot be told (an array of several elements - what a sign condition yields on an array -, an object whose __bool__ raises) is a
+# predicate that raised: a failed condition, ConvertError carrying the cause.
+
+ANSWERS = ['1', '0', "'x'", "''", '[0]', '[]', 'None', 'ambiguous-object', 'array-of-two', 'array-of-one-true', 'array-of-one-false']
+
+
+def answer_cases(shard: int, nshards: int) -> t.Iterator[t.Any]:
+    i = 0
+    for a in [*ANSWERS, 'stock-Positive-on-array', 'stock-NonNegative-on-array-any']:
+        for wrap in ('direct', 'not'):
+            for where in ('bare', 'List', 'Dict'):
+                if i % nshards == shard:
+                    yield [a, wrap, where]
+                i += 1
+
+
+def check_answers(case: t.Any, ctx: Ctx) -> None:
+    import numpy
+    import pane
+    from pane.annotations import Condition, Positive, NonNegative
+    (a, wrap, where) = case
+
+    class Ambiguous:
+        def __bool__(self) -> bool:
+            raise ValueError('tok_truth_boom: the truth of this answer cannot be told')
+    ctx.label(f"answer:{a}", wrap, where)
+    ctx.nontrivial(True)
+    (inner, v) = (int, 5)
+    if a.startswith('stock-'):
+        cond = Positive if 'Positive' in a else NonNegative
+        (inner, v) = (numpy.ndarray, [1, 2]) if 'Positive' in a else (t.Any, numpy.array([1.0, 2.0]))
+        truth: t.Optional[bool] = None
+    else:
+        ans = {'1': 1, '0': 0, "'x'": 'x', "''": '', '[0]': [0], '[]': [], 'None': None, 'ambiguous-object': Ambiguous(), 'array-of-two': numpy.array([True, False]),
+               'array-of-one-true': numpy.array([True]), 'array-of-one-false': numpy.array([False])}[a]
+        cond = Condition(lambda x: ans, 'answers with an object')
+        try:
+            truth = bool(ans)
+        except ValueError:
+            truth = None
+    if wrap == 'not':
+        cond = ~cond
+        truth = None if truth is None else not truth
+    T0 = t.Annotated[inner, cond]       # type: ignore[valid-type]
+    (T, data) = {'bare': (T0, v), 'List': (t.List[T0], [v]), 'Dict': (t.Dict[str, T0], {'k': v})}[where]
+    ctx.evaluated()
+    (k, got) = outcome(lambda: pane.from_data(data, T))
+    ident = f"Annotated[{getattr(inner, '__name__', inner)}, {'~' if wrap == 'not' else ''}<condition answering {a}>] ({where}) given {short(data, 60)}"
+    if k == 'exc':
+        ctx.fail('raising-predicate', f"answer-truth-raises:{type(got).__name__}", f"{ident}: {type(got).__name__} escaped: {str(got)[:150]} (want ConvertError carrying the cause)")
+    elif truth is None:
+        if k == 'ok':
+            ctx.fail('raising-predicate', 'answer-truth-raises:accepted', f"{ident}: accepted as {short(got, 80)} although the answer has no truth value")
+        else:
+            from ..errtree import walk_leaves
+            if not any(getattr(leaf, 'cause', None) is not None for (_, leaf, _) in walk_leaves(got.tree)):
+                ctx.fail('raising-predicate', 'answer-truth-raises:no-cause', f"{ident}: refused, but no leaf of the tree carries the exception as its cause: {short(got.tree, 200)}")
+    elif (k == 'ok') != truth:
+        ctx.fail('boolean-algebra', 'answer-truth', f"{ident}: {'accepted' if k == 'ok' else 'refused'}, the answer's truth is {truth}")
+
+
 def suites(tier: str) -> t.List[Suite]:
     big = tier == 'thorough'
     return [
         Suite('conditions', check, strategy=cases, examples=10000 if big else 800, budget_s=480 if big else 40, render=render),
         Suite('custom-annotation', check_custom_annotation, strategy=lambda: ca_cases, examples=3000 if big else 300, budget_s=60 if big else 10,
               render=lambda c: {'conditions before Plus100()': c[0], 'conditions after': c[1], 'value': c[2]}),
+        Suite('predicate-answers', check_answers, cases=answer_cases, exhaustive=True, budget_s=60, render=lambda c: {'answer': c[0], 'wrapped': c[1], 'where': c[2]}),
         Suite('shipped-aliases', check_alias, cases=alias_cases, exhaustive=True, budget_s=60),
         Suite('stock-table', check_table, cases=table_cases, exhaustive=True, budget_s=120, render=lambda c: {'condition': STOCK[c[0]], 'wrapped': c[1], 'value': repr(TABLE_VALUES[c[2]]), 'inner': c[3]}),
     ]
